@@ -25,7 +25,7 @@ from vgi_rpc.rpc import AuthContext
 
 PROPERTY = "C13"
 ENCODED = list(tc.DISPATCH_FUNCS) + [st._CallStateCache.get, st._CallStateCache.put]
-BOUNDS = "6 stream methods (a,b: same state class + call state; c,d: another class; p: producer; u: union) x 6 endpoints, 0..1 turns before the switch, continuation or cancel, warm or cold cache, one identity"
+BOUNDS = "8 stream methods (a,b: same state class + call state; c,d: another class; p: producer; u: union; two 60-character names sharing a 54-character prefix) x 8 endpoints; the method binding itself for ALL method names (SMT); 0..1 turns before the switch, continuation or cancel, warm or cold cache, one identity"
 OUTSIDE = "the per-turn helpers (_run_http_exchange_turn/_run_http_producer_turn: replaced by a recorder that refreshes the cursor through the real _mint_cursor_token); Arrow decoding of a foreign state class (fake: decoding fails iff the class differs); unknown-method 404 (resource layer)"
 ASSUMPTIONS = [*tc.TOKEN_STUBS, *tc.DISPATCH_STUBS, "a state class decodes exactly the cursor payloads of its own class (stands for Arrow schema compatibility)"]
 
@@ -58,8 +58,11 @@ class _SB(_Tagged):
     TAG = b"B"
 
 
-_METHODS = ("a", "b", "c", "d", "p", "u")
-_STATE_TYPES = {"a": _SA, "b": _SA, "c": _SB, "d": _SB, "p": _SA, "u": (_SA, _SB)}
+# two verbose names with a long common prefix (same state class): the binding must cover the whole name
+_LONG_A = "convert_measurements_by_region_and_unit_and_season_to_metric"
+_LONG_B = "convert_measurements_by_region_and_unit_and_season_to_imperial"
+_METHODS = ("a", "b", "c", "d", "p", "u", _LONG_A, _LONG_B)
+_STATE_TYPES = {"a": _SA, "b": _SA, "c": _SB, "d": _SB, "p": _SA, "u": (_SA, _SB), _LONG_A: _SA, _LONG_B: _SA}
 _IN = tc.FakeSchema(b"S:in")
 _OUT = tc.FakeSchema(b"S:out")
 
@@ -83,6 +86,9 @@ class _Impl:
     def u(self):  # type: ignore[no-untyped-def]
         return tc.StreamResult(_SA(b"\xffA:u"), _CS(b"cs:u"), _OUT, _IN)
 
+
+setattr(_Impl, _LONG_A, lambda self: tc.StreamResult(_SA(b"\xffA:la"), _CS(b"cs:la"), _OUT, _IN))
+setattr(_Impl, _LONG_B, lambda self: tc.StreamResult(_SA(b"\xffA:lb"), _CS(b"cs:lb"), _OUT, _IN))
 
 _AUTH = AuthContext(domain="d", authenticated=True, principal="alice")
 
@@ -174,6 +180,8 @@ class E2EService(Protocol):
     def c(self) -> Stream[Other]: ...
     def d(self) -> Stream[Other]: ...
     def u(self) -> Stream[Acc | Other]: ...
+    def convert_measurements_by_region_and_unit_and_season_to_metric(self) -> Stream[Acc]: ...
+    def convert_measurements_by_region_and_unit_and_season_to_imperial(self) -> Stream[Acc]: ...
 
 
 class E2EImpl:
@@ -191,6 +199,12 @@ class E2EImpl:
 
     def u(self) -> Stream[Acc | Other]:
         return Stream(output_schema=_E2E_OUT, state=Acc(tag="u"), input_schema=_E2E_IN)
+
+    def convert_measurements_by_region_and_unit_and_season_to_metric(self) -> Stream[Acc]:
+        return Stream(output_schema=_E2E_OUT, state=Acc(tag="metric"), input_schema=_E2E_IN)
+
+    def convert_measurements_by_region_and_unit_and_season_to_imperial(self) -> Stream[Acc]:
+        return Stream(output_schema=_E2E_OUT, state=Acc(tag="imperial"), input_schema=_E2E_IN)
 
 
 def _e2e(m0: str, m: str, turns: int, cancel: bool, warm: bool) -> tuple:
@@ -224,7 +238,7 @@ def _e2e(m0: str, m: str, turns: int, cancel: bool, warm: bool) -> tuple:
         client.close()
 
 
-_REAL_TYPES = {"a": tc.RealStateA, "b": tc.RealStateA, "c": tc.RealStateB, "d": tc.RealStateB, "p": tc.RealStateA, "u": (tc.RealStateA, tc.RealStateB)}
+_REAL_TYPES = {"a": tc.RealStateA, "b": tc.RealStateA, "c": tc.RealStateB, "d": tc.RealStateB, "p": tc.RealStateA, "u": (tc.RealStateA, tc.RealStateB), _LONG_A: tc.RealStateA, _LONG_B: tc.RealStateA}
 
 
 def _replay(args: dict) -> str | None:
@@ -250,10 +264,10 @@ def _replay(args: dict) -> str | None:
 @cond(q=60, t=300, stubs=[*tc.TOKEN_STUBS, *tc.DISPATCH_STUBS], encoded=ENCODED, bound=BOUNDS, replay=_replay, signature=lambda a, c: SIG)
 def tokens_accepted_only_at_minting_method(m0: int, m: int, turns: int, cancel: bool, warm: bool) -> bool:
     """
-    pre: 0 <= m0 <= 5 and 0 <= m <= 5 and 0 <= turns <= 1
+    pre: 0 <= m0 <= 7 and 0 <= m <= 7 and 0 <= turns <= 1
     post: _
     """
-    m0, m, turns = _pick(m0, 6), _pick(m, 6), _pick(turns, 2)
+    m0, m, turns = _pick(m0, 8), _pick(m, 8), _pick(turns, 2)
     if m != m0 and is_open(SIG):
         # listed open finding: the cross-method site is carved out, the own-endpoint direction stays decided
         return True
@@ -263,3 +277,125 @@ def tokens_accepted_only_at_minting_method(m0: int, m: int, turns: int, cancel: 
     if m == m0:
         return served and len(processed) == 1 and processed[0][0] == ("on_cancel" if cancel else "turn") and processed[0][2 if cancel else 1] == _METHODS[m]
     return (not served) and not processed and err is not None and err[0] == 400
+
+
+# ---------------------------------------------------------------------------
+# the method binding itself, for ALL method names (source -> SMT, cvc5; z3 cross-check bounded)
+# ---------------------------------------------------------------------------
+# A call token minted by /{m1}/init is sealed under _compute_call_aad(identity, m1) and, at /{m2}/exchange, opened
+# under _compute_call_aad(identity', m2).  With the ideal AEAD it opens iff the two AADs are equal, so "tokens are
+# bound to their method" is exactly: (identity, method name) -> call AAD is injective, and never equals a cursor AAD.
+
+SIG_BIND = "C13:method-binding:aad-not-injective"
+
+
+def _replay_binding(cex: dict) -> dict:
+    """Real token functions, real crypto: mint for (x, m1), open under (y, m2)."""
+    x, y = tc.auth_from_json(cex["x"]), tc.auth_from_json(cex["y"])
+    m1, m2 = cex.get("xm"), cex.get("ym")
+    none = {"verdict": "INCONCLUSIVE", "detail": "solver witness did not reproduce on the real token functions"}
+    key = b"k" * 32
+    if cex.get("q") == "kind":
+        cursor = st._seal_cursor_token(b"s", b"\x01" * 16, key, st._compute_aad(x), 1000)
+        try:
+            st._open_call_token(tc.RealWorld.relabel(cursor, st._CALL_TOKEN_VERSION), key, st._compute_call_aad(y, m2))
+        except Exception as e:  # noqa: BLE001
+            return none if tc.http_error_info(e) == (400, "Call token signature verification failed") else {"verdict": "VIOLATION", "replayed": True, "signature": "C13:method-binding:cursor-opens-as-call", "detail": f"cursor token of {x!r} authenticates as a call token of {y!r}/{m2!r}: {e!r}"}
+        return {"verdict": "VIOLATION", "replayed": True, "signature": "C13:method-binding:cursor-opens-as-call", "detail": f"cursor token of {x!r} opens as a call token of {y!r} at method {m2!r}"}
+    if m1 is None or m2 is None or (m1 == m2 and tc.real_identity(x) == tc.real_identity(y)):
+        return none
+    token = st._seal_call_token(b"cs", "T", b"out", b"in", b"\x01" * 16, "sid", key, st._compute_call_aad(x, m1), 1000)
+    try:
+        st._open_call_token(token, key, st._compute_call_aad(y, m2))
+    except Exception:  # noqa: BLE001
+        return none
+    return {
+        "verdict": "VIOLATION",
+        "replayed": True,
+        "signature": SIG_BIND,
+        "detail": f"a call token minted for method {m1!r} (caller {tc.real_identity(x)!r}) opens at method {m2!r} (caller {tc.real_identity(y)!r}): both AADs are {st._compute_call_aad(x, m1)!r}",
+    }
+
+
+def _symstr_value(S, model, v):  # type: ignore[no-untyped-def]
+    g = (lambda t: model.eval(t, True)) if S.__name__ == "z3" else (lambda t: model[t])
+    if str(g(v.none)).lower() == "true":
+        return None
+    raw = g(v.s).as_string()
+    raw = tc._unescape(raw) if S.__name__ == "z3" else raw
+    try:
+        return raw.encode("latin-1").decode("utf-8")
+    except (UnicodeEncodeError, UnicodeDecodeError) as e:
+        raise tc.Unsupported(f"witness is not a UTF-8 image: {raw!r}") from e
+
+
+from engine.api import task  # noqa: E402
+
+
+@task(q=60, t=180, encoded=[st._compute_call_aad, st._compute_aad], bound="all identities (NUL-free domains) x all method names, unbounded string lengths (cvc5); z3 cross-check lengths<=8 (non-blocking on unknown)", engine="smt")
+def method_binding_is_injective_for_all_method_names(budget: float, replay=None) -> dict:
+    import time
+
+    res: dict = {"queries": 0, "discharged": 0, "solver_s": 0.0, "samples": []}
+    if replay is not None:
+        return _replay_binding(replay)
+    if not tc._takes(st._compute_call_aad, "method_name"):
+        return {**res, "verdict": "INCONCLUSIVE", "detail": "_compute_call_aad takes no method name: the call token cannot be method-bound through its AAD (see tokens_accepted_only_at_minting_method)"}
+    try:
+        val = {"_compute_aad": tc.validate_identity_translation(st._compute_aad, bytes), "_compute_call_aad": tc.validate_identity_translation(st._compute_call_aad, bytes, "method_name")}
+    except tc.Unsupported as e:
+        return {**res, "verdict": "INCONCLUSIVE", "detail": f"construct outside the translator: {e}"}
+    res["translator_validation"] = val
+    if any(v["n_disagree"] for v in val.values()):
+        return {**res, "verdict": "ERROR", "detail": f"source->SMT translation disagrees with the live functions: {str(val)[:600]}"}
+    out: dict = {}
+    for sname, S, bound in tc.solvers():
+        x, y = tc.SymAuth(S, "x"), tc.SymAuth(S, "y")
+        xm, ym = tc.SymStr(S, "xm"), tc.SymStr(S, "ym")
+        side: list = []
+        cx = tc.encode_fn(st._compute_call_aad, S, x, {"method_name": xm}, side)
+        cy = tc.encode_fn(st._compute_call_aad, S, y, {"method_name": ym}, side)
+        named = [S.Not(xm.none), S.Not(ym.none), tc.nul_free_domain(S, x), tc.nul_free_domain(S, y)]
+        queries = [
+            ("inj", [cx == cy, *named, S.Not(S.And(tc.same_identity(S, x, y), xm.s == ym.s))]),
+            ("same-caller", [cx == cy, *named, tc.same_identity(S, x, y), xm.s != ym.s]),  # the C13 core: one caller, two methods
+            ("kind", [tc.encode_fn(st._compute_aad, S, x) == cy, S.Not(ym.none)]),
+        ]
+        for label, cs in queries:
+            s = S.Solver()
+            if sname == "z3":
+                s.set("timeout", int(min(20.0, budget / 8) * 1000))
+                s.add(tc.bounded(S, x, bound), tc.bounded(S, y, bound), S.Length(xm.s) <= bound, S.Length(ym.s) <= bound)
+            else:
+                s.set("tlimit-per", int(min(30.0, budget / 4) * 1000))
+            s.add(*cs, *side)
+            t0 = time.monotonic()
+            r = str(s.check())
+            dt = time.monotonic() - t0
+            res["queries"] += 1
+            res["solver_s"] = round(res["solver_s"] + dt, 3)
+            smp = {"solver": sname, "query": label, "result": r, "solver_s": round(dt, 3)}
+            if r == "sat":
+                try:
+                    m = s.model()
+                    smp["witness"] = {"q": label, "x": tc.auth_to_json(tc.auth_from_model(S, m, x)), "y": tc.auth_to_json(tc.auth_from_model(S, m, y)), "xm": _symstr_value(S, m, xm), "ym": _symstr_value(S, m, ym)}
+                except tc.Unsupported as e:
+                    smp["witness_error"] = str(e)
+            elif r == "unsat":
+                res["discharged"] += 1
+            res["samples"].append(smp)
+            out[(sname, label)] = (r, smp)
+    for label in ("same-caller", "inj", "kind"):
+        for sname in ("cvc5", "z3"):
+            r, smp = out[(sname, label)]
+            if r == "sat":
+                if "witness" not in smp:
+                    return {**res, "verdict": "INCONCLUSIVE", "detail": f"{label}: sat but witness unusable: {smp.get('witness_error')}"}
+                return {**res, **_replay_binding(smp["witness"]), "cex": smp["witness"]}
+            if r != "unsat" and not (sname == "z3" and r == "unknown"):
+                return {**res, "verdict": "INCONCLUSIVE", "detail": f"{label}: {sname}={r}"}
+            if r == "unknown":
+                res.setdefault("notes", []).append(f"{label}: z3 cross-check unknown within its limit; verdict rests on cvc5")
+    res["verdict"] = "CONFIRMED"
+    res["detail"] = "(identity, method name) -> call AAD is injective for all method names of any length, and no call AAD equals a cursor AAD"
+    return res
